@@ -187,6 +187,10 @@ func (s *DiscoveryStrategy) GetRoutableEndpoints(
 		), nil
 	}
 
+	// the caller's list is the candidate set of this request (it may already be narrowed, e.g. to one
+	// provider): the refreshed view only tells which of those candidates are healthy now
+	updatedHealthy = keepCandidates(updatedHealthy, healthyEndpoints)
+
 	// note: we can't get updated model endpoints here without registry access
 	// in practice, the registry would need to be updated during discovery
 	// for now, fall back to all healthy endpoints after refresh
@@ -235,4 +239,19 @@ func (s *DiscoveryStrategy) GetRoutableEndpoints(
 			constants.RoutingReasonAllHealthyAfterDiscovery,
 		), nil
 	}
+}
+
+// keepCandidates returns the endpoints of updated that the caller offered as candidates
+func keepCandidates(updated, candidates []*domain.Endpoint) []*domain.Endpoint {
+	offered := make(map[string]struct{}, len(candidates))
+	for _, candidate := range candidates {
+		offered[candidate.URLString] = struct{}{}
+	}
+	kept := make([]*domain.Endpoint, 0, len(candidates))
+	for _, endpoint := range updated {
+		if _, ok := offered[endpoint.URLString]; ok {
+			kept = append(kept, endpoint)
+		}
+	}
+	return kept
 }
